@@ -22,12 +22,15 @@ class Live:
 
 
 class Run:
-    def __init__(self, res, uni_vars, make_solver, pid, mode="exact", cfg=None, keep=None):
+    def __init__(self, res, uni_vars, make_solver, pid, mode="exact", cfg=None, keep=None, qkw=None, annotate=None, ref_cons=None):
         self.res = res
         self.uni = refsolver.Universe(uni_vars)
         self.pid = pid
         self.mode = mode  # "exact" | "approx"
         self.cfg = cfg or {}
+        self.qkw = dict(qkw or {})  # extra keyword arguments for every query (e.g. exact=False)
+        self.annotate = annotate  # optional AST -> AST applied to everything that is built (SI annotations)
+        self.ref_cons = list(ref_cons or [])  # constraints only the reference knows (declared variable ranges)
         self.live = [Live(make_solver(), label="s0")]
         self.log = []  # (clock, solver index, op, outcome summary)
         self.keep = keep if keep is not None else []
@@ -37,11 +40,13 @@ class Run:
     # ------------------------------------------------------------------ helpers
     def b(self, d):
         a = bvb.build(d)
+        if self.annotate is not None and isinstance(a, claripy.ast.Base):
+            a = self.annotate(a)
         self.keep.append(a)
         return a
 
     def ans(self, lv, extra):
-        return refsolver.Answer(self.uni, lv.cons + list(extra))
+        return refsolver.Answer(self.uni, self.ref_cons + lv.cons + list(extra))
 
     def viol(self, step, what, **kw):
         self.failed = True
@@ -85,17 +90,17 @@ class Run:
                 lv.cons += st["cons"]
                 outcome = ("ok", None)
             elif op == "satisfiable":
-                outcome = ("ok", s.satisfiable(extra_constraints=extra))
+                outcome = ("ok", s.satisfiable(extra_constraints=extra, **self.qkw))
             elif op == "eval":
-                outcome = ("ok", tuple(s.eval(self.b(st["e"]), st["n"], extra_constraints=extra)))
+                outcome = ("ok", tuple(s.eval(self.b(st["e"]), st["n"], extra_constraints=extra, **self.qkw)))
             elif op == "batch_eval":
-                outcome = ("ok", [tuple(t) for t in s.batch_eval([self.b(e) for e in st["es"]], st["n"], extra_constraints=extra)])
+                outcome = ("ok", [tuple(t) for t in s.batch_eval([self.b(e) for e in st["es"]], st["n"], extra_constraints=extra, **self.qkw)])
             elif op in ("min", "max"):
-                outcome = ("ok", getattr(s, op)(self.b(st["e"]), extra_constraints=extra, signed=st["signed"]))
+                outcome = ("ok", getattr(s, op)(self.b(st["e"]), extra_constraints=extra, signed=st["signed"], **self.qkw))
             elif op == "solution":
-                outcome = ("ok", s.solution(self.b(st["e"]), st["v"], extra_constraints=extra))
+                outcome = ("ok", s.solution(self.b(st["e"]), st["v"], extra_constraints=extra, **self.qkw))
             elif op in ("is_true", "is_false"):
-                outcome = ("ok", getattr(s, op)(self.b(st["e"]), extra_constraints=extra))
+                outcome = ("ok", getattr(s, op)(self.b(st["e"]), extra_constraints=extra, **self.qkw))
             elif op == "simplify":
                 s.simplify()
                 outcome = ("ok", None)
@@ -183,6 +188,11 @@ class Run:
         res.count("ref_sat" if sat else "ref_unsat")
         kind = outcome[0]
         if kind in ("raise", "raise-other"):
+            if self.mode == "approx":
+                # an approximate frontend that declines to answer excludes nothing; counted, not judged
+                res.count("approx_query_raised")
+                res.setadd("approx_query_raised", f"{op}:{str(outcome[1])[:100]}")
+                return
             self.viol(st, "query-raised", observed=list(outcome), ref_sat=sat)
             return
         if kind == "unsat-error":
